@@ -143,6 +143,7 @@ func runSweepDoc(c *hx.Ctx, idx int, format string, keep bool) {
 	}
 	r := c.Rng.Fork(uint64(16+fi)<<40 | uint64(idx))
 	d := genSweepDoc(r, format)
+	decorateDoc(c.Rng.Fork(uint64(32+fi)<<40|uint64(idx)), &d, format)
 	path := filepath.Join(c.OutDir, fmt.Sprintf("c15-sweep-%d.%s", idx, format))
 	os.WriteFile(path, writeDoc(format, d), 0o644)
 	kase := docCase{Kind: "hsweep", Seed: c.Seed, Index: idx, Format: format}
